@@ -5,18 +5,19 @@
 // every truncation offset and a dense set of single-byte corruptions of each
 // file is then fed to the real Reader and Recovery.
 //
-// Two kinds of plan:
-// Every plan first produces the same appends again and again with one
-// transient I/O fault on the LIVE writer (a write that fails after some bytes
-// landed, a write that fails outright, a file creation that fails; every WAL
-// fs operation of the log in turn); the writer keeps appending afterwards, and
-// the files are then read back (intact, cut at every entry/fragment boundary,
-// and through Recovery). What the writer put where is taken from the fs
-// operation log, not from parsing the file, so "completely written" is ground
-// truth. Then, by plan mode:
+// Every plan first produces the same appends again and again with a transient
+// I/O fault on the LIVE writer: every WAL fs operation of the log in turn (a
+// write that fails after some bytes landed or fails outright, a creation or
+// truncation of a *.wal file that fails), alone and together with the
+// operation right after it; the writer keeps appending afterwards, and the
+// files are then read back (intact, cut at every entry/fragment boundary, and
+// through Recovery). What the writer put where is taken from the fs operation
+// log (writes and truncations), not from parsing the file, so "completely
+// written" is ground truth. Then, by plan mode:
 //   - mode "bytes": every truncation offset and a dense set of single-byte
 //     corruptions of each fault-free file (the original, expensive check);
-//   - mode "wfaults": chains of two live-writer faults (cheap, many logs).
+//   - mode "wfaults": all chains of two live-writer faults within the writer's
+//     error path, optionally chains of three (cheap, many logs).
 package main
 
 import (
@@ -24,7 +25,6 @@ import (
 	"context"
 	"encoding/binary"
 	"fmt"
-	"hash/crc32"
 	"io"
 	"math"
 	"os"
@@ -544,10 +544,7 @@ func identify(frame []byte, from int, p *C06Plan, payloads [][]byte, want []logi
 	if len(frame) < 16 || int(binary.BigEndian.Uint32(frame[0:4])) != len(frame)-16 {
 		return -1
 	}
-	payload := frame[16:]
-	if crc32.ChecksumIEEE(payload) != binary.BigEndian.Uint32(frame[12:16]) {
-		return -1
-	}
+	payload := frame[16:] // identity is the payload; whether the checksum protects it is the reader's business
 	for j := from; j < len(p.Appends); j++ {
 		if payloads[j] != nil {
 			if bytes.Equal(payloads[j], payload) {
